@@ -360,6 +360,36 @@ theorem later_line_wins (base : Str) (st : LinkState) (f g : Field) (h : f.key =
   apply_later_wins base st f g h h0 hp
 
 open Pyg.Umn in
+/-- through the directory handler: a dot file of a UMN directory that passes the ignore pattern contributes exactly the
+    entries of its blocks, in file order -/
+theorem link_file_member_contributes_its_blocks (c : DirCfg) (hu : c.umn = true) (dirSel base : Str) (ch : Child)
+    (hdot : ch.name.head? = some 46) (hnd : ch.isDir = false) (hig : reSearch c.ignore (base ++ [47] ++ ch.name) = false)
+    (bs : List (List Field)) (hbs : ∀ b ∈ bs, ∀ f ∈ b, f.Ok) (hl : ch.lines = some (renderFile bs)) :
+    linksOf c dirSel base ch = some (bs.filterMap (blockEntry dirSel base none)) := by
+  unfold linksOf
+  simp only [hu, hig, hdot, hnd, hl, Bool.not_false, Bool.and_self, decide_true, if_true]
+  exact linkfile_reader_fuel_suffices dirSel base bs hbs
+
+open Pyg.Umn in
+/-- through the directory handler: a `.cap` file of well-formed lines overrides exactly the fields its lines set
+    (`mergeEntries` with the block's entry), or hides the file when it says `Type=X` / `Type=-` -/
+theorem cap_file_overrides_by_its_fields (c : DirCfg) (hu : c.umn = true) (hx : c.extstrip = lit "none") (dirSel base : Str)
+    (ch : Child) (e0 : Entry) (isf : Bool) (he : ch.entry = some (e0, isf))
+    (fs : List Field) (hfs : ∀ f ∈ fs, f.Ok) (hc : ch.cap = some (renderFields fs)) :
+    ∃ ci, blockEntry dirSel base (some e0.selector) fs = some ci ∧
+      childEntry c dirSel base ch =
+        (if ci.e.type == some (lit "X") || ci.e.type == some (lit "-") then some none
+         else some (some (mergeEntries e0 ci.e))) := by
+  have hd := applyAll_keeps_path base fs (freshLink dirSel (some e0.selector)) (by simp [freshLink])
+  obtain ⟨ci, hci⟩ : ∃ ci, blockEntry dirSel base (some e0.selector) fs = some ci := by
+    unfold blockEntry finishEntry; simp [hd]
+  refine ⟨ci, hci, ?_⟩
+  unfold childEntry
+  have hp := cap_file_is_one_block dirSel base e0.selector fs hfs (renderFields fs).length
+  simp only [he, hu, hx, hc, Bool.not_true, Bool.false_eq_true, if_false, bne_self_eq_false, Bool.false_and, hp, hci,
+    Option.toList_some]
+
+open Pyg.Umn in
 /-- the manual's sample entry is such a file (the hypotheses are met and the text is the manual's) -/
 example :
     let b1 : List Field := [.name (lit "Cheese Ball Recipes"), .numb 1, .type 49, .portPlus, .path (lit "/Moo/Cheesy"), .hostPlus]
